@@ -56,8 +56,16 @@ namespace
     };
 } // namespace
 
+#include <foonathan/memory/debugging.hpp>
+#include <foonathan/memory/error.hpp>
+
 int main(int argc, char** argv)
 {
+    // silent handlers: the library's defaults print to stderr (out of memory is an expected event here)
+    namespace fm = foonathan::memory;
+    fm::out_of_memory::set_handler([](const fm::allocator_info&, std::size_t) {});
+    fm::bad_allocation_size::set_handler([](const fm::allocator_info&, std::size_t, std::size_t) {});
+    fm::set_leak_handler([](const fm::allocator_info&, std::ptrdiff_t) {});
     CompSim e;
     return sim::engine_main(argc, argv, e);
 }
